@@ -272,6 +272,8 @@ def run(ctx: Ctx) -> int:
             ctx.oblige("C03.R4", ok, c, "the inner parser's ArgumentError is converted by this arm" if ok else f"{src(c, 60)} runs a parser built with exit_on_error=False outside any handler for ArgumentError: its ArgumentError propagates through _check_type (TypeError/ValueError only) and the parse entries (TypeError/KeyError only), so with exit_on_error=True the caller gets an exception instead of exit status 2", fn=adt)
     for c in calls_in(adt):
         if call_leaf(c) == "adapt_class_type":
+            if len(c.args) > 1 and isinstance(c.args[1], ast.Constant) and c.args[1].value is True:
+                continue  # serialising call: runs parser.dump, which reports through TypeError, never through error()
             n_inner += 1
             ok = _covers_argerr(c)
             ctx.oblige("C03.R4", ok, c, "adapt_class_type (runs the per-class parser) is called inside a handler for ArgumentError" if ok else "adapt_class_type is called outside any handler for ArgumentError", fn=adt)
